@@ -28,7 +28,7 @@ REL = 1e-9
 
 
 def budget(tier):
-    return {"shards": 8 if tier == "quick" else 14, "deadline_s": 45 if tier == "quick" else 600}
+    return {"shards": 14, "deadline_s": 45 if tier == "quick" else 600}
 
 
 def ang(d):
@@ -196,7 +196,7 @@ def gen_case(rng):
 
 
 def run(ctx):
-    total = 3000 if ctx.tier == "quick" else 150000
+    total = 20000 if ctx.tier == "quick" else 600000
     for _ in range(ctx.share(total)):
         if not ctx.time_left():
             break
